@@ -156,10 +156,15 @@ impl fmt::Display for Display<'_> {
         let mut takes_exp = true;
         let mut n = self.spec.limit;
 
-        for d in emit(&mut rem, &den) {
-            if n == 0 {
-                break;
-            }
+        let mut it = emit(&mut rem, &den);
+
+        // NB: test the digit budget before pulling the next digit, since a
+        // digit which has been pulled is no longer part of `rem`.
+        while n > 0 {
+            let d = match it.next() {
+                Some(d) => d,
+                None => break,
+            };
 
             if d.is_zero() && takes_exp {
                 exp -= 1;
@@ -196,6 +201,8 @@ impl fmt::Display for Display<'_> {
                 d.fmt(f)?;
             }
         }
+
+        drop(it);
 
         if !rem.is_zero() && self.spec.show_continuation {
             f.write_char('…')?;
